@@ -53,7 +53,7 @@ def mk_style(tree, kw):
 def units(tier):
     us = [("FAULTS", i) for i in range(len(fault_docs()))]
     us += [("MULTILINE",)]
-    us += S.doc_units(["S1", "S4", "ROOT"] + (["S2"] if tier == "thorough" else []), tier)
+    us += S.doc_units(["S1", "S1n", "S4", "ROOT"] + (["S2"] if tier == "thorough" else []), tier)
     if tier == "thorough":
         us += [("DEV", t) for t in V.object_types()]
     return us
